@@ -121,6 +121,9 @@ class Report:
             s.unknown('%s [%s at %s]: the value involves a call of a private helper the path evaluator could not inline (several paths inside an expression, a generator ...), so the rule did not see what it computes -- %s'
                       % (rule, construct or '', where, message[:160]))
             return None
+        if not ok and not loop_rule and message and s._shows_conditional_value(message):
+            s.unknown('%s [%s at %s]: the value examined is a conditional expression the rule did not take apart into its two cases -- %s' % (rule, construct or '', where, message[:160]))
+            return None
         if not ok and not loop_rule and message and any(m in message for m in ('<loopvar ', '<unk ', '<localfunc ')):
             # the value that failed the rule contains a placeholder of the evaluator (a variable rewritten in a loop that was
             # abstracted, an unmodelled construct): the rule did not see the real value, so this is not a decision
@@ -153,6 +156,14 @@ class Report:
                 if name in d['funcs'] or any(isinstance(n, __import__('ast').FunctionDef) and n.name == name for c in d['classes'].values() for n in c.body):
                     return True
         return False
+
+    @staticmethod
+    def _shows_conditional_value(message):
+        """the evidence text shows a term printed as `(a if c else b)`: rules match one case at a time, so a failed match on the
+        whole conditional says nothing about either case"""
+        import re
+        m = re.search(r' if [^,;]{1,120}? else ', message)
+        return m is not None and '(' in message[:m.start()]
 
     def violation(s, rule, construct, where, message, detail=None):
         s.obligations.append(dict(rule=rule, ok=False, where=where))
